@@ -132,7 +132,7 @@ PROPS = {
     },
     "C04": {
         "rules": [shape.rule_shape, shrinking.rule_chirality, shrinking.rule_samesrc, shrinking.rule_declsrc, shrinking.rule_idcmp, shrinking.rule_cutvar, shrinking.rule_cutkind, enums.rule_enum_maps({"core2axcut"}),
-                  fresh.rule_fresh, fresh.rule_maxid, fresh.rule_counter, traversal.rule_trav(["core2axcut::shrinking::Shrinking", "scc_core_lang::traits::substitution::SubstVar",
+                  fresh.rule_fresh, fresh.rule_maxid, fresh.rule_counter, fresh.rule_eta, traversal.rule_trav(["core2axcut::shrinking::Shrinking", "scc_core_lang::traits::substitution::SubstVar",
                                                                           "scc_core_lang::traits::typed_free_vars::TypedFreeVars"]),
                   inputs.rule_useall_for(["core2axcut"], 35), traversal.rule_siblings, sharing.rule_sharepath, enums.rule_sort_selfmaps],
         "text": "Structural necessary conditions of shrinking: all 18 well-typed (producer, consumer) cut shapes are handled before the "
@@ -154,7 +154,7 @@ PROPS = {
         "assumptions": ["the degree of the polynomial is not decided; growth from other sources than duplicated continuations was not found by reading"],
     },
     "C02": {
-        "rules": [hygiene.rule_hyg, hygiene.rule_seed, hygiene.rule_binders, hygiene.rule_fvscope, hygiene.rule_seq, sharing.rule_sharepath, enums.rule_sort_selfmaps, inputs.rule_useall_for(["fun2core"], 50), enums.rule_enum_maps({"fun2core"}), enums.rule_enum_surface, translate.rule_xlate,
+        "rules": [hygiene.rule_hyg, hygiene.rule_seed, hygiene.rule_binders, hygiene.rule_fvscope, hygiene.rule_seq, sharing.rule_sharepath, enums.rule_sort_selfmaps, fresh.rule_eta, inputs.rule_useall_for(["fun2core"], 50), enums.rule_enum_maps({"fun2core"}), enums.rule_enum_surface, translate.rule_xlate,
                   traversal.rule_trav(["fun::traits::used_binders::UsedBinders", "fun2core::compile::Compile"])],
         "text": "Hygiene and naming clauses of the Fun->Core translation, decided for every program at once: (R-HYG) the incoming "
                 "consumer is never placed under a binder copied verbatim from the source; (R-SEED) fresh names are seeded from the "
@@ -169,7 +169,7 @@ PROPS = {
         "rules": [traversal.rule_trav(["scc_core_lang::traits::substitution::Subst", "scc_core_lang::traits::substitution::SubstVar",
                                    "scc_core_lang::traits::uniquify::Uniquify", "scc_core_lang::traits::focus::Focusing",
                                    "scc_core_lang::traits::focus::Bind", "scc_core_lang::traits::typed_free_vars::TypedFreeVars"]), wiring.rule_wire_intra, shape.rule_shape,
-                  fresh.rule_fresh, fresh.rule_maxid, fresh.rule_counter, fresh.rule_shadow, fresh.rule_substscope, focus.rule_bindorder, enums.rule_sort_selfmaps, inputs.rule_useall_for(["scc_core_lang"], 100)],
+                  fresh.rule_fresh, fresh.rule_maxid, fresh.rule_counter, fresh.rule_eta, fresh.rule_shadow, fresh.rule_substscope, focus.rule_bindorder, enums.rule_sort_selfmaps, inputs.rule_useall_for(["scc_core_lang"], 100)],
         "text": "Structural necessary conditions of focusing: every Subst/SubstVar/Uniquify/Focusing/Bind/TypedFreeVars impl of Core "
                 "visits every subterm (R-TRAV), uniquify dominates the focusing of definitions (R-WIRE), and only producer-only "
                 "shapes reach the `cannot happen` arms of Term<Cns> (R-SHAPE); a local copy of the identifier counter that is lent to a "
@@ -188,7 +188,7 @@ PROPS = {
     "C12": {
         "rules": [panics.rule_panic(("B",)), annot.rule_annot_check, annot.rule_annot_freevars, shape.rule_shape,
                   traversal.rule_trav(["fun::typing::check::Check"]), wiring.rule_wire_intra, hygiene.rule_fvscope, shrinking.rule_cutvar, traversal.rule_siblings, formatting.rule_nameprint, typing_rules.rule_tywf,
-                  linear.rule_linear_subst, linear.rule_linear_ctx, panics.rule_idxguard],
+                  linear.rule_linear_subst, linear.rule_linear_ctx, panics.rule_idxguard, fresh.rule_eta],
         "text": "'No internal failure' clause: every panic-capable site reachable from the post-check stage entry points is audited, "
                 "and the annotation/shape classes are discharged by checked rules rather than trusted: Check sets every annotation on "
                 "every Ok path and visits every subterm (R-ANNOT, R-TRAV), free-variable and closure-environment annotations are set "
